@@ -1052,11 +1052,13 @@ def enum_parallel_lists(thorough: bool = False):
 
     def cases():
         import itertools
-        for cpus in (2, 4):
-            for combo in itertools.product(pool, repeat=2):
-                yield {"records": [{"id": i, "name": i} for i in combo], "long": False, "cpus": cpus}
-        for combo in itertools.product(pool[:2] + pool[3:5], repeat=3):
-            yield {"records": [{"id": i, "name": i} for i in combo], "long": False, "cpus": 3}
+        core = pool[:2] + pool[3:5]
+        for combo in itertools.product(pool, repeat=2):
+            yield {"records": [{"id": i, "name": i} for i in combo], "long": False, "cpus": 2}
+        for combo in itertools.product(core, repeat=2):
+            yield {"records": [{"id": i, "name": i} for i in combo], "long": False, "cpus": 4}
+        for combo in itertools.product(core, repeat=3):
+            yield {"records": [{"id": i, "name": i} for i in combo], "long": False, "cpus": 2}
         if thorough:
             for cpus in (2, 4):
                 for allow_long in (False, True):
@@ -1065,9 +1067,9 @@ def enum_parallel_lists(thorough: bool = False):
     return cases
 
 
-def enum_parallel_crowds():
+def enum_parallel_crowds(thorough: bool = False):
     def cases():
-        for cpus in (2, 4):
+        for cpus in ((2, 4) if thorough else (3,)):
             yield {"blocks": [{"template": "metagenome-contig7-bin{:04d}", "count": 12}], "long": False, "cpus": cpus}
             yield {"blocks": [{"template": "NZ_ABCDEF0123456.{}", "first": 1, "count": 9}], "long": False, "cpus": cpus}
             yield {"blocks": [{"template": "abcdefghijklmn", "count": 12}], "long": False, "cpus": cpus}
@@ -1307,8 +1309,8 @@ def run(ctx) -> None:
     ctx.enum("genes_enum", enum_gene_variants(ctx.thorough), shards=ctx.pick(4, 8))
     # options.cpus > 1: pre_process_sequences forks its own pool, so these run in this process (shards=1)
     ctx.enum("parallel_enum", enum_parallel_lists(ctx.thorough), shards=1)
-    ctx.enum("parallel_crowd_enum", enum_parallel_crowds(), shards=1)
-    ctx.hyp("parallel", id_list_specs("collide", cpus_choices=(2, 4)), max_examples=ctx.pick(60, 1200), shards=1)
+    ctx.enum("parallel_crowd_enum", enum_parallel_crowds(ctx.thorough), shards=1)
+    ctx.hyp("parallel", id_list_specs("collide", cpus_choices=(2, 2, 4)), max_examples=ctx.pick(50, 1200), shards=1)
     ctx.hyp("unique_id", unique_id_specs(), max_examples=ctx.pick(600, 8000), shards=ctx.pick(4, 8))
     ctx.hyp("records", id_list_specs("collide"), max_examples=ctx.pick(3000, 60000), shards=shards)
     ctx.hyp("length", id_list_specs("length"), max_examples=ctx.pick(1500, 30000), shards=shards)
